@@ -449,6 +449,11 @@ def replay(case, rec):
         name = func[4:]
         n = args[0]
         places = args[1] if len(args) > 1 else None
+        if isinstance(places, str):
+            exp = places if places in ERRSET else \
+                CLOSURE if places == '' else ANYERR
+            ctx.run(func, tuple(args), exp, 'malformed-places', True)
+            return
         if isinstance(n, str):
             # (python's int() is itself lenient: "1_0", " 10", "١٠")
             if re.fullmatch(r'-?[0-9]+', n):
